@@ -279,9 +279,64 @@ def run_variants(select: list[str] | None, props_filter: str | None, repo_root: 
     return (0 if not failures else 2), stats
 
 
+DECLINED_SEEDED = {'C09-m2'}  # DESIGN.md 6.5: agreement of two recognisers of the drive-prefix language is not decided
+
+
+def _seeded_one(args: tuple) -> dict:
+    sid, prop = args
+    import subprocess
+    from .cli import run_property
+    from .report import VERIF
+    d = os.path.join(VERIF, 'seeded', sid)
+    tmp = tempfile.mkdtemp(prefix='wcverif-seed-')
+    try:
+        shutil.copytree('/repo/wcmatch', os.path.join(tmp, 'wcmatch'))
+        p = subprocess.run(f'patch -p1 -s -d {tmp} < {os.path.join(d, "patch.diff")}', shell=True, capture_output=True, text=True)
+        if p.returncode:
+            return {'sid': sid, 'error': 'patch does not apply to the current tree'}
+        buf = io.StringIO()
+        with contextlib.redirect_stdout(buf):
+            rc = run_property(prop, tmp, 'quick', 0, write_evidence=False, replay_dir=os.path.join(tmp, 'replay'))
+        return {'sid': sid, 'rc': rc}
+    finally:
+        shutil.rmtree(tmp, ignore_errors=True)
+
+
+def run_seeded_for(prop: str) -> tuple[int, dict]:
+    """Replay the independently written seeded changes that target `prop` (regression guard of the thorough tier)."""
+    from .report import VERIF
+    root = os.path.join(VERIF, 'seeded')
+    tasks = []
+    if os.path.isdir(root):
+        for sid in sorted(os.listdir(root)):
+            mp = os.path.join(root, sid, 'meta.json')
+            if not os.path.exists(mp) or sid in DECLINED_SEEDED:
+                continue
+            with open(mp, encoding='utf-8') as fh:
+                if json.load(fh).get('property') == prop:
+                    tasks.append((sid, prop))
+    stats = {'seeded': len(tasks), 'seeded_caught': 0, 'seeded_stale': 0}
+    bad = []
+    if tasks:
+        with ProcessPoolExecutor(max_workers=min(16, len(tasks))) as ex:
+            for r in ex.map(_seeded_one, tasks):
+                if r.get('error'):
+                    stats['seeded_stale'] += 1
+                elif r['rc'] == 1:
+                    stats['seeded_caught'] += 1
+                else:
+                    bad.append(f"{r['sid']}: rc={r['rc']}")
+    for b in bad:
+        print('SELFTEST-FAIL seeded change not reported:', b)
+    return (2 if bad else 0), stats
+
+
 def run_variants_for(prop: str, seed: int) -> int:
     rc, stats = run_variants(None, prop)
-    if rc != 0:
+    rc2, sstats = run_seeded_for(prop)
+    stats.update(sstats)
+    print(f"seeded changes targeting {prop}: {sstats['seeded_caught']}/{sstats['seeded'] - sstats['seeded_stale']} reported ({sstats['seeded_stale']} stale)")
+    if rc != 0 or rc2 != 0:
         print(f'ANALYSIS-ERROR: property={prop} the both-ways self-test of the checker failed (see SELFTEST-FAIL lines)')
         return 2
     # append the self-test coverage to the evidence file written by the quick pass
